@@ -110,6 +110,54 @@ Qed.
 
 (* ---------------------------------------------------------------- preservation *)
 
+(* the thunks allocated by a primitive operation (copies of the merged fields' thunks and the
+   thunks of the merged fields) are neither black-holed nor locked *)
+Lemma copy_cell_ok c : st (copy_cell false c) <> Blackholed /\ locked (copy_cell false c) = false.
+Proof. unfold copy_cell; cbn. split; auto. destruct (st c); discriminate. Qed.
+
+Lemma merge_center_cons keep h base f p1 p2 cs :
+  merge_center keep h base ((f, (p1, p2)) :: cs) =
+  match nth_error h (fst p1), nth_error h (fst p2) with
+  | Some c1, Some c2 =>
+      let (cells, fl) := merge_center keep h (3 + base) cs in
+      (copy_cell keep c1 :: copy_cell keep c2
+         :: new_cell (CTm merge_body, [("%1", base); ("%2", S base)]) :: cells,
+       (f, (2 + base, false)) :: fl)
+  | _, _ => ([], [])
+  end.
+Proof. reflexivity. Qed.
+
+Lemma merge_center_cells h : forall cs base cells fl,
+  merge_center false h base cs = (cells, fl) ->
+  forall c, In c cells -> st c <> Blackholed /\ locked c = false.
+Proof.
+  induction cs as [|[f [p1 p2]] cs IH]; intros base cells fl E c I.
+  - inversion E; subst. destruct I.
+  - rewrite merge_center_cons in E.
+    destruct (nth_error h (fst p1)) as [c1|]; [|inversion E; subst; destruct I].
+    destruct (nth_error h (fst p2)) as [c2|]; [|inversion E; subst; destruct I].
+    destruct (merge_center false h (3 + base) cs) as [cells' fl'] eqn:E'.
+    inversion E; subst. destruct I as [<-|[<-|[<-|I]]]; try apply copy_cell_ok.
+    + split; [discriminate|reflexivity].
+    + eapply IH; eauto.
+Qed.
+
+Lemma binop_cells o a b h r cells :
+  binop_eval false o a b h = BVal r cells ->
+  forall c, In c cells -> st c <> Blackholed /\ locked c = false.
+Proof.
+  intros E c I. unfold binop_eval in E.
+  assert (N : forall x (y : list cell), BVal x [] = BVal r cells -> False).
+  { intros x y X. inversion X; subst. destruct I. }
+  destruct o; destruct (fst a) as [[]|fl1]; destruct (fst b) as [[]|fl2]; try discriminate;
+    try (exfalso; eapply N; eauto; fail).
+  - destruct (Z.eqb n n0); try discriminate. exfalso; eapply N; eauto.
+  - destruct (Bool.eqb b0 b1); try discriminate. exfalso; eapply N; eauto.
+  - destruct (any_rev fl1 || any_rev fl2); try discriminate.
+    destruct (merge_center false h (length h) (center_part fl1 fl2)) as [cells' cfl] eqn:EM.
+    inversion E; subst. apply (merge_center_cells _ _ _ _ _ EM c I).
+Qed.
+
 Lemma enter_bh_inv l c c' :
   bh_inv (stack c) (hp c) -> enter l c = Next c' -> bh_inv (stack c') (hp c').
 Proof.
@@ -139,9 +187,9 @@ Qed.
 Lemma ret_bh_inv c c' :
   bh_inv (stack c) (hp c) -> ret c = Next c' -> bh_inv (stack c') (hp c').
 Proof.
-  intros I E. unfold ret in E.
+  intros I E. unfold ret_gen in E.
   destruct (stack c) as [|fr s] eqn:Es; try discriminate.
-  destruct fr as [a|l|o c2|o v1|t e|f].
+  destruct fr as [a|l|o c2|o v1|t e|f|sq].
   - discriminate.
   - (* update frame popped, thunk := Evaluated *)
     inversion E; subst; clear E; cbn. destruct I as [ND H]. cbn in ND, H.
@@ -151,13 +199,15 @@ Proof.
     + split; [tauto|]. intros (c0 & E0 & B0). cbn in B0. discriminate.
     + rewrite <- H. split; [auto | intros [?|?]; [congruence|auto]].
   - inversion E; subst; cbn. eapply bh_inv_same_upds; [|exact I]. reflexivity.
-  - destruct (binop_eval o v1 (ctrl c)); inversion E; subst; cbn.
+  - destruct (binop_eval false o v1 (ctrl c) (hp c)) as [r cells|e] eqn:EB; inversion E; subst; cbn.
+    apply bh_inv_alloc; [intros c0 I0; apply (binop_cells _ _ _ _ _ _ EB c0 I0)|].
     eapply bh_inv_same_upds; [|exact I]. reflexivity.
   - destruct (fst (ctrl c)) as [[]|]; try discriminate.
     destruct b; inversion E; subst; cbn; (eapply bh_inv_same_upds; [|exact I]); reflexivity.
   - destruct (fst (ctrl c)) as [|fl]; try discriminate.
-    destruct (assoc fl f); inversion E; subst; cbn.
+    destruct (assoc fl f) as [[l b]|]; inversion E; subst; cbn.
     eapply bh_inv_same_upds; [|exact I]. reflexivity.
+  - inversion E; subst; cbn. eapply bh_inv_same_upds; [|exact I]. reflexivity.
 Qed.
 
 Lemma alloc_rec_cells h env fs h' fl :
@@ -171,14 +221,14 @@ Qed.
 Theorem step_bh_inv c c' :
   bh_inv (stack c) (hp c) -> step c = Next c' -> bh_inv (stack c') (hp c').
 Proof.
-  intros I E. unfold step in E.
+  intros I E. unfold step_gen in E.
   destruct (fst (ctrl c)) as [t|fl] eqn:Ec; [|(eapply ret_bh_inv; eassumption)].
   destruct t; try ((eapply ret_bh_inv; eassumption)); try discriminate.
-  - destruct (assoc (snd (ctrl c)) x); try discriminate. eapply enter_bh_inv; eauto.
+  - destruct (assoc (snd (ctrl c)) x) as [l|]; try discriminate. eapply enter_bh_inv; eauto.
   - (* Lam *)
-    pose proof (ret_bh_inv c c' I) as R. unfold ret in R.
-    destruct (stack c) as [|[a| | | | |] s] eqn:Es;
-      try (apply R; unfold ret in E; rewrite Es in E; exact E).
+    pose proof (ret_bh_inv c c' I) as R. unfold ret_gen in R.
+    destruct (stack c) as [|[a| | | | | |] s] eqn:Es;
+      try (apply R; unfold ret_gen in E; rewrite Es in E; exact E).
     inversion E; subst; cbn. apply bh_inv_alloc1.
     eapply bh_inv_same_upds; [|exact I]. reflexivity.
   - inversion E; subst; cbn. eapply bh_inv_same_upds; [|exact I]. reflexivity.
@@ -189,6 +239,7 @@ Proof.
   - destruct (alloc_rec (hp c) (snd (ctrl c)) fs) as [h' fl] eqn:Ea.
     inversion E; subst; cbn. apply alloc_rec_cells in Ea. destruct Ea as (cs & -> & Hcs).
     now apply bh_inv_alloc.
+  - inversion E; subst; cbn. eapply bh_inv_same_upds; [|exact I]. reflexivity.
   - inversion E; subst; cbn. eapply bh_inv_same_upds; [|exact I]. reflexivity.
 Qed.
 
@@ -207,16 +258,16 @@ Qed.
 Lemma step_done_stack c : step c = Done -> stack c = [].
 Proof.
   assert (R : ret c = Done -> stack c = []).
-  { unfold ret. destruct (stack c) as [|[a|l|o c2|o v1|t e|f] s]; auto; try discriminate.
-    - destruct (binop_eval o v1 (ctrl c)); discriminate.
+  { unfold ret_gen. destruct (stack c) as [|[a|l|o c2|o v1|t e|f|sq] s]; auto; try discriminate.
+    - destruct (binop_eval false o v1 (ctrl c) (hp c)); discriminate.
     - destruct (fst (ctrl c)) as [[]|]; try discriminate. destruct b; discriminate.
-    - destruct (fst (ctrl c)) as [|fl]; try discriminate. destruct (assoc fl f); discriminate. }
-  unfold step. destruct (fst (ctrl c)) as [t|fl]; auto.
+    - destruct (fst (ctrl c)) as [|fl]; try discriminate. destruct (assoc fl f) as [[? ?]|]; discriminate. }
+  unfold step_gen. destruct (fst (ctrl c)) as [t|fl]; auto.
   destruct t; auto; try discriminate.
-  - destruct (assoc (snd (ctrl c)) x); try discriminate. unfold enter.
+  - destruct (assoc (snd (ctrl c)) x) as [l|]; try discriminate. unfold enter.
     destruct (nth_error (hp c) l) as [cl|]; try discriminate.
     destruct (st cl); try discriminate. destruct (no_update_needed (cur cl)); discriminate.
-  - destruct (stack c) as [|[a| | | | |] s] eqn:Es; auto; try discriminate.
+  - destruct (stack c) as [|[a| | | | | |] s] eqn:Es; auto; try discriminate.
 Qed.
 
 Lemma run_val_stack fuel : forall c v c' k, run fuel c = (Val v, c', k) -> stack c' = [].
@@ -244,7 +295,7 @@ Proof.
   - cbn. split; auto. intros l. destruct (nth_error h l) as [c|] eqn:E; cbn; auto.
     f_equal. unfold unwound. destruct (st c) eqn:Est; auto.
     exfalso. apply bh_inv_nil in I. apply (I l). exists c. auto.
-  - destruct fr as [a|l0|o c2|o v1|t e|f];
+  - destruct fr as [a|l0|o c2|o v1|t e|f|sq];
       try (cbn; apply IH; eapply bh_inv_same_upds; [|exact I]; reflexivity).
     cbn. destruct I as [ND H]. cbn in ND, H. inversion ND as [|? ? NI ND']; subst.
     assert (B0 : blackholed h l0) by (apply H; now left).
@@ -318,21 +369,23 @@ Proof.
   { intros i f Hf l x Ex. rewrite nth_error_upd_nth in Ex. destruct (Nat.eqb i l); eauto.
     destruct (nth_error (hp c) l) eqn:E0; cbn in Ex; inversion Ex; subst. rewrite Hf. eauto. }
   assert (R : ret c = Next c' -> unlocked (hp c')).
-  { unfold ret. destruct (stack c) as [|[a|l|o c2|o v1|t e|f] s]; try discriminate.
+  { unfold ret_gen. destruct (stack c) as [|[a|l|o c2|o v1|t e|f|sq] s]; try discriminate.
     - intros X; inversion X; subst; cbn. now apply UU.
     - intros X; inversion X; subst; auto.
-    - destruct (binop_eval o v1 (ctrl c)); intros X; inversion X; subst; auto.
+    - destruct (binop_eval false o v1 (ctrl c) (hp c)) as [r cells|e] eqn:EB; intros X; inversion X; subst; cbn.
+      apply UA. intros x I. apply (binop_cells _ _ _ _ _ _ EB x I).
     - destruct (fst (ctrl c)) as [[]|]; try discriminate. destruct b; intros X; inversion X; subst; auto.
     - destruct (fst (ctrl c)) as [|fl]; try discriminate.
-      destruct (assoc fl f); intros X; inversion X; subst; auto. }
-  unfold step in E. destruct (fst (ctrl c)) as [t|fl]; auto.
+      destruct (assoc fl f) as [[? ?]|]; intros X; inversion X; subst; auto.
+    - intros X; inversion X; subst; auto. }
+  unfold step_gen in E. destruct (fst (ctrl c)) as [t|fl]; auto.
   destruct t; auto; try discriminate.
-  - destruct (assoc (snd (ctrl c)) x); try discriminate. unfold enter in E.
+  - destruct (assoc (snd (ctrl c)) x) as [l|]; try discriminate. unfold enter in E.
     destruct (nth_error (hp c) l) as [cl|]; try discriminate.
     destruct (st cl); try discriminate.
     + destruct (no_update_needed (cur cl)); inversion E; subst; cbn; now apply UU.
     + inversion E; subst; auto.
-  - destruct (stack c) as [|[a| | | | |] s] eqn:Es;
+  - destruct (stack c) as [|[a| | | | | |] s] eqn:Es;
       try (apply R; exact E).
     inversion E; subst; cbn. apply UA. intros x0 [<-|[]]. reflexivity.
   - inversion E; subst; auto.
@@ -342,6 +395,7 @@ Proof.
   - inversion E; subst; auto.
   - unfold alloc_rec in E. inversion E; subst; cbn. apply UA.
     intros x0 I. apply in_map_iff in I. destruct I as (fe & <- & _). reflexivity.
+  - inversion E; subst; auto.
   - inversion E; subst; auto.
 Qed.
 
@@ -401,7 +455,7 @@ Proof.
                  good_heap h1 -> fields fl0 h1 k1 = (r1, (fr1, h2, k2)) ->
                  bh_inv fr1 h2 /\ unlocked h2 /\ (forall a, r1 = Val a -> fr1 = [])).
       { clear E. intros fl0.
-        induction fl0 as [|[f l] fl0 IHfl]; intros h1 k1 r1 fr1 h2 k2 G1 E1; cbn in E1.
+        induction fl0 as [|[f [l bb]] fl0 IHfl]; intros h1 k1 r1 fr1 h2 k2 G1 E1; cbn in E1.
         - inversion E1; subst. destruct G1. split; [now apply bh_inv_nil|]. split; auto.
         - destruct (fields fl0 h1 k1) as [r2 [[fr2 h3] k3]] eqn:E2.
           specialize (IHfl _ _ _ _ _ _ G1 E2). destruct IHfl as (I2 & U2 & V2).
@@ -436,7 +490,7 @@ Proof.
   - inversion E; subst. split; auto. now apply bh_inv_nil.
   - destruct (fst w) as [t|fl].
     + inversion E; subst. split; auto. now apply bh_inv_nil.
-    + destruct (assoc fl f) as [l|].
+    + destruct (assoc fl f) as [[l bb]|].
       * eapply IH; [|exact E]. split; auto.
       * inversion E; subst. split; auto. now apply bh_inv_nil.
 Qed.
@@ -486,24 +540,26 @@ Lemma step_same_locks c c' : step c = Next c' -> same_locks (hp c) (hp c').
 Proof.
   intros E.
   assert (R : ret c = Next c' -> same_locks (hp c) (hp c')).
-  { unfold ret. destruct (stack c) as [|[a|l|o c2|o v1|t e|f] s]; try discriminate.
+  { unfold ret_gen. destruct (stack c) as [|[a|l|o c2|o v1|t e|f|sq] s]; try discriminate.
     - intros X; inversion X; subst; cbn. now apply same_locks_upd.
     - intros X; inversion X; subst; apply same_locks_refl.
-    - destruct (binop_eval o v1 (ctrl c)); intros X; inversion X; subst; apply same_locks_refl.
+    - destruct (binop_eval false o v1 (ctrl c) (hp c)) as [r cells|e] eqn:EB; intros X; inversion X; subst; cbn.
+      apply same_locks_app. intros x I. apply (binop_cells _ _ _ _ _ _ EB x I).
     - destruct (fst (ctrl c)) as [[]|]; try discriminate.
       destruct b; intros X; inversion X; subst; apply same_locks_refl.
     - destruct (fst (ctrl c)) as [|fl]; try discriminate.
-      destruct (assoc fl f); intros X; inversion X; subst; apply same_locks_refl. }
+      destruct (assoc fl f) as [[? ?]|]; intros X; inversion X; subst; apply same_locks_refl.
+    - intros X; inversion X; subst; apply same_locks_refl. }
   assert (A1 : forall x, same_locks (hp c) (hp c ++ [new_cell x])).
   { intros x. apply same_locks_app. intros c0 [<-|[]]. reflexivity. }
-  unfold step in E. destruct (fst (ctrl c)) as [t|fl]; auto.
+  unfold step_gen in E. destruct (fst (ctrl c)) as [t|fl]; auto.
   destruct t; auto; try discriminate.
-  - destruct (assoc (snd (ctrl c)) x); try discriminate. unfold enter in E.
+  - destruct (assoc (snd (ctrl c)) x) as [l|]; try discriminate. unfold enter in E.
     destruct (nth_error (hp c) l) as [cl|]; try discriminate.
     destruct (st cl); try discriminate.
     + destruct (no_update_needed (cur cl)); inversion E; subst; cbn; now apply same_locks_upd.
     + inversion E; subst; apply same_locks_refl.
-  - destruct (stack c) as [|[a| | | | |] s] eqn:Es; try (apply R; exact E).
+  - destruct (stack c) as [|[a| | | | | |] s] eqn:Es; try (apply R; exact E).
     inversion E; subst; cbn. apply A1.
   - inversion E; subst; apply same_locks_refl.
   - inversion E; subst; cbn. apply A1.
@@ -512,6 +568,7 @@ Proof.
   - inversion E; subst; apply same_locks_refl.
   - unfold alloc_rec in E. inversion E; subst; cbn. apply same_locks_app.
     intros x0 I. apply in_map_iff in I. destruct I as (fe & <- & _). reflexivity.
+  - inversion E; subst; apply same_locks_refl.
   - inversion E; subst; apply same_locks_refl.
 Qed.
 
@@ -602,7 +659,7 @@ Proof.
     + match type of E with context [?F fl (hp cf) k0] => set (fields := F) in * end.
       assert (FL : forall fl0 h3 k3 r3 h4 k4,
                  clean h3 -> fields fl0 h3 k3 = (r3, (h4, k4)) -> clean h4 /\ same_locks h3 h4).
-      { clear E FIN. intros fl0. induction fl0 as [|[f lf] fl0 IHfl]; intros h3 k3 r3 h4 k4 C3 E3; cbn in E3.
+      { clear E FIN. intros fl0. induction fl0 as [|[f [lf bb]] fl0 IHfl]; intros h3 k3 r3 h4 k4 C3 E3; cbn in E3.
         - inversion E3; subst. split; auto using same_locks_refl.
         - destruct (spine_with true unwind d k3 h3 lf) as [r5 [h5 k5]] eqn:E5.
           destruct (IH _ _ _ _ _ _ C3 E5) as [C5 S5].
